@@ -141,7 +141,14 @@ def one(ctx, i):
                 relabel(ctx)
                 return
             first_calls.append((sub, un_, tq))
-        b.pt.reset()
+        if b.control is None and b.stop is None and rng.random() < 0.5:
+            # the reset is issued through a NEW Powertrain object assembled from the same motor (it shares the elements)
+            b.pt = B.g().Powertrain(motor=b.motor)
+            b.pt.reset()
+            b.solver = B.g().Solver(powertrain=b.pt)
+            ctx.count('second_history_through_a_new_powertrain_object')
+        else:
+            b.pt.reset()
         b.spec['ic'] = dict(spec['ic'], speed=GEN.Q('AngularSpeed', (GEN.qsi(spec['ic']['speed']) or spec['_ref']['w_out']) * -0.7, 'rad/s'),
                             pos=GEN.Q('AngularPosition', GEN.qsi(spec['ic']['pos']) + 0.3, 'rad'))
         B.apply_ic(b)
